@@ -246,4 +246,84 @@ Section Exec.
       | Adopted st' rc => adopt_all e (used + r_gas_used rc) rest st' (rcs ++ [rc])
       end
     end.
+  (* ---------------------------------------------------------------- packer/flow.go Adopt in full: the pre-checks in the
+     order of the code, then checkpoint / ExecuteTransaction / RevertTo, then the flow's bookkeeping.  Blocklist membership,
+     feature bits, chain tag, tx id, chain lookups (HasTransaction, GetTransactionMeta) are inputs. *)
+  Record adopt_in := mkAI {
+    ai_origin_blocked : bool; ai_delegator_blocked : bool;     (* thor.IsOriginBlocked *)
+    ai_features_ok : bool;                                      (* TestFeatures(flow features) = nil *)
+    ai_chain_tag_ok : bool;
+    ai_expiration : Z;
+    ai_id : Z;
+    ai_depends_on : option Z;
+    ai_chain_has_tx : bool;                                     (* Chain().HasTransaction(id, ref) *)
+    ai_chain_dep : option bool                                  (* Chain().GetTransactionMeta(dep): Some reverted | not found *)
+  }.
+  Record flow_env := mkFE { fe_blocklist : Z; fe_min_prio : Z }.   (* forkConfig.BLOCKLIST, packer.minTxPriorityFee *)
+  Record flow_state := mkFS { fs_used : Z; fs_processed : list (Z * bool) }.
+
+  Inductive adopt_class := AcBadTx | AcNotAdoptableNow | AcGasLimitReached | AcKnownTx | AcNotAdoptableForever | AcOtherError.
+  Inductive adopt_full_result := FRejected (c : adopt_class) (st : state) | FAdopted (st : state) (rc : receipt) (fs : flow_state).
+
+  Fixpoint lookup_processed (id : Z) (l : list (Z * bool)) : option bool :=
+    match l with [] => None | (k, v) :: t => if k =? id then Some v else lookup_processed id t end.
+
+  Definition fee_check (e : env) (fe : flow_env) (t : txn) : option adopt_class :=
+    if e_number e <? e_galactica e then (if t_dynamic t then Some AcBadTx else None)
+    else if t_ctx_err t then Some AcOtherError            (* validateTxFee: ProvedWork lookup error, returned as is *)
+    else match e_base_fee e with
+         | None => Some AcOtherError                      (* nil base fee after the fork: not reachable from Schedule *)
+         | Some bf =>
+           if effective_price e t bf <? bf then Some AcNotAdoptableNow
+           else if fe_min_prio fe <=? 0 then None
+           else if priority_fee e t bf <? fe_min_prio fe then Some AcBadTx else None
+         end.
+
+  Definition adopt_pre (e : env) (fe : flow_env) (fs : flow_state) (t : txn) (ai : adopt_in) : option adopt_class :=
+    let listed := fe_blocklist fe <=? e_number e in
+    if listed && ai_origin_blocked ai then Some AcBadTx
+    else if negb (t_delegator_ok t) then Some AcBadTx
+    else if listed && (match t_delegator t with Some _ => ai_delegator_blocked ai | None => false end) then Some AcBadTx
+    else if negb (ai_features_ok ai) then Some AcBadTx
+    else if negb (ai_chain_tag_ok ai) then Some AcBadTx
+    else if e_number e <? t_ref_num t then Some AcNotAdoptableNow
+    else if t_ref_num t + ai_expiration ai <? e_number e then Some AcBadTx
+    else if e_gas_limit e <? (fs_used fs + t_gas t) mod two64 then
+      (if (fs_used fs + tx_gas + clause_gas) mod two64 <=? e_gas_limit e then Some AcNotAdoptableNow else Some AcGasLimitReached)
+    else match fee_check e fe t with
+    | Some c => Some c
+    | None =>
+      if (match lookup_processed (ai_id ai) (fs_processed fs) with Some _ => true | None => ai_chain_has_tx ai end) then Some AcKnownTx
+      else match ai_depends_on ai with
+      | None => None
+      | Some dep =>
+        match (match lookup_processed dep (fs_processed fs) with Some r => Some r | None => ai_chain_dep ai end) with
+        | None => Some AcNotAdoptableNow
+        | Some true => Some AcNotAdoptableForever
+        | Some false => None
+        end
+      end
+    end.
+
+  Definition adopt_full (e : env) (fe : flow_env) (fs : flow_state) (t : txn) (ai : adopt_in) (ci : credit_info) (st0 : state)
+    : adopt_full_result :=
+    match adopt_pre e fe fs t ai with
+    | Some c => FRejected c st0
+    | None =>
+      match exec_tx e t ci st0 with
+      | Failed _ _ => FRejected AcBadTx st0          (* RevertTo(checkpoint) *)
+      | Done st rc => FAdopted st rc (mkFS (fs_used fs + r_gas_used rc) ((ai_id ai, r_reverted rc) :: fs_processed fs))
+      end
+    end.
+
+  Fixpoint adopt_all_full (e : env) (fe : flow_env) (fs : flow_state) (txs : list (txn * adopt_in * credit_info)) (st : state)
+           (rcs : list receipt) : flow_state * state * list receipt :=
+    match txs with
+    | [] => (fs, st, rcs)
+    | (t, ai, ci) :: rest =>
+      match adopt_full e fe fs t ai ci st with
+      | FRejected _ st' => adopt_all_full e fe fs rest st' rcs
+      | FAdopted st' rc fs' => adopt_all_full e fe fs' rest st' (rcs ++ [rc])
+      end
+    end.
 End Exec.
